@@ -158,7 +158,7 @@ theorem importMedit_exportMedit (cd : Codec C) (h : RoundTrips cd) (m : Raw C) :
         unfold medEdges hardEdges
         cases m.hard with
         | none => exact hn
-        | some l => simp [hn]
+        | some l => simp only [hn]; split <;> simp
       simp [hn, this, foldOpt, Raw.empty]
     · simp only [hn, if_false, foldOpt]
       have a1 : stepMedit cd meditRows (.idle, { (Raw.empty : Raw C) with verts := m.verts }) [.kw "Edges"]
